@@ -352,6 +352,16 @@ func main() {
 			if len(r.Violations) > 0 {
 				s.DirectViolation(c.ID, "stress: "+r.Violations[0], r.Violations)
 			}
+			if c.Backend == "inmem" {
+				n := 250
+				if fl.Tier == "thorough" {
+					n = 1500
+				}
+				if v := expiryCreateRounds(c.Seed, n); len(v) > 0 {
+					s.DirectViolation(c.ID, "expiry-create: "+v[0], v)
+				}
+				s.Count("fam:expiry-create-rounds-inmem")
+			}
 			if c.Backend == "redis" {
 				if v := slowPollCase(); len(v) > 0 {
 					s.DirectViolation(c.ID, "slow poll: "+v[0], v)
